@@ -42,7 +42,7 @@ class CSYNC(dns.rdata.Rdata):
         self.flags: int = self._as_uint16(flags)
         if not isinstance(windows, Bitmap):
             windows = Bitmap(windows)
-        self.windows = tuple(windows.windows)
+        self.windows = tuple((window, octets) for window, octets in windows.windows)
 
     def to_styled_text(self, style: dns.rdata.RdataStyle) -> str:
         text = Bitmap(self.windows).to_text()
